@@ -183,6 +183,10 @@ def Reg.sample (r : Reg) (i : Nat) (inp : List (Bool × Int)) (xiff : List Bool)
     { types := r.types.modify inst.tidx (fun t => { t with st := sampleSt t.shape t.st inp xiff }),
       insts := r.insts.set i inst' }
 
+/-- `covergroup.set_name(name)` on instance `i`: the instance model takes the new name; nothing else moves -/
+def Reg.rename (r : Reg) (i : Nat) (nm : String) : Reg :=
+  { r with insts := r.insts.modify i (fun x => { x with name := nm }) }
+
 /-! ### coverage (exact rationals as numerator / denominator pairs) -/
 
 def covered (atLeast : Nat) (hits : List Nat) : Nat := (hits.filter (fun h => decide (h ≥ atLeast))).length
